@@ -140,6 +140,22 @@ Definition stmt_load_ok_valid : Prop :=
     load O finf fmax override j = LoadOk p ->
     validate O finf p = true /\ check_dimensions_ok p = true.
 
+(** the two sites of each enum-like string setting agree: whatever the validator accepts, the
+    consumer matches (so a validated name can never reach the consumer's panic arm) -- and
+    conversely, so that validation rejects nothing the solver could run with *)
+Definition stmt_string_sites_agree : Prop :=
+  forall s : string,
+    validator_solve_method_ok s = consumer_solve_method_ok s
+    /\ validator_merge_method_ok s = consumer_merge_method_ok s.
+(** load returns Ok only if the consumers' exact-match predicates hold on the settings the
+    solver is constructed with (stored or override) *)
+Definition stmt_load_ok_consumers_accept : Prop :=
+  forall T (O : Ops T) (finf fmax : T) (override : option settings) (j : json) (p : problem),
+    load O finf fmax override j = LoadOk p ->
+    consumer_solve_method_ok (get_s O finf (pset p) "direct_solve_method") = true
+    /\ consumer_merge_method_ok (get_s O finf (pset p) "chordal_decomposition_merge_method") = true
+    /\ get_b O finf (pset p) "direct_kkt_solver" = true.
+
 (** the cone list the solver keeps (and saves) is a normal form: collapsing is idempotent
     and preserves the total dimension *)
 Definition stmt_collapse_idempotent : Prop :=
